@@ -69,6 +69,19 @@ func (inv execInvocation) GobEncode() ([]byte, error) {
 			}
 			continue
 		}
+		if typ.Kind() == reflect.Ptr {
+			// Gob cannot represent nil pointers (it panics on them), but nil
+			// is a legal argument for a pointer-typed parameter: pointer
+			// arguments are preceded by a flag telling whether they are nil.
+			v := reflect.ValueOf(arg)
+			isNil := !v.IsValid() || v.Kind() == reflect.Ptr && v.IsNil()
+			if err := enc.Encode(isNil); err != nil {
+				return nil, fmt.Errorf("encoding arg %d of type %v: %v", i, typ, err)
+			}
+			if isNil {
+				continue
+			}
+		}
 		if err := enc.Encode(arg); err != nil {
 			return nil, fmt.Errorf("encoding arg %d of type %v: %v", i, typ, err)
 		}
@@ -100,6 +113,17 @@ func (inv *execInvocation) GobDecode(p []byte) error {
 	inv.Args = make([]interface{}, fv.NumIn())
 	for i := range inv.Args {
 		typ := fv.In(i)
+		if typ.Kind() == reflect.Ptr {
+			// See GobEncode: pointer arguments carry a nil flag.
+			var isNil bool
+			if err := dec.Decode(&isNil); err != nil {
+				return fmt.Errorf("decoding arg %d of type %v: %v", i, typ, err)
+			}
+			if isNil {
+				inv.Args[i] = reflect.Zero(typ).Interface()
+				continue
+			}
+		}
 		var v reflect.Value
 		switch {
 		case typ == typResultPtr:
